@@ -24,7 +24,41 @@ pub mod c19;
 pub mod c20;
 pub mod common;
 
+/// Replay tier: shrunk cases of defects that were found and repaired live in /verif/regress/<ID>/ and are re-run
+/// (through the property's own `--replay` path, in child processes) before every generated run. A fixed entry
+/// suppresses nothing: if the defect returns, the regress file is reported as the replay of the violation.
+fn regress(ctx: &Ctx) -> Vec<String> {
+    use rayon::prelude::*;
+    let dir = std::path::Path::new(crate::engine::VERIF).join("regress").join(&ctx.prop);
+    let Ok(rd) = std::fs::read_dir(&dir) else { return vec![] };
+    let files: Vec<std::path::PathBuf> = rd.flatten().map(|e| e.path()).filter(|p| p.extension().map(|e| e == "json").unwrap_or(false)).collect();
+    let exe = std::env::current_exe().unwrap();
+    files
+        .par_iter()
+        .filter_map(|f| {
+            let out = std::process::Command::new(&exe).arg(&ctx.prop).arg("--replay").arg(f).env("VERIF_SEED", ctx.seed.to_string()).output().ok()?;
+            if out.status.code() == Some(1) {
+                Some(f.display().to_string())
+            } else {
+                None
+            }
+        })
+        .collect()
+}
+
 pub fn dispatch(ctx: &Ctx, args: &[String]) -> i32 {
+    let is_prop = ctx.prop.len() == 3 && ctx.prop.starts_with('C');
+    let failed = if ctx.replay.is_none() && is_prop { regress(ctx) } else { vec![] };
+    let mut code = dispatch_inner(ctx, args);
+    for f in &failed {
+        println!("VIOLATION property={} replay={}", ctx.prop, f);
+        println!("  detail: a defect that had been repaired is back (regression corpus)");
+        code = crate::check::EXIT_VIOLATION;
+    }
+    code
+}
+
+fn dispatch_inner(ctx: &Ctx, args: &[String]) -> i32 {
     match ctx.prop.as_str() {
         "C01" => c01::run(ctx),
         "C02" => c02::run(ctx),
